@@ -189,11 +189,11 @@ def rand_cfg(rng, name='m1', kinds=None, max_npix=768, min_delta=0, rec_unsigned
     elif k == 'wide':
         c = MapCfg(name, 'wide', covord, spord, maxbits=rng.choice([1, 7, 8, 9, 15, 16, 17, 20, 32]))
     elif k == 'rec':
-        nf = rng.choice([2, 2, 3, 4])
+        nf = rng.choice([1, 2, 2, 3, 4])            # (a record with a single field is legal)
         # rec_unsigned=False: known finding F43 (unsigned record fields come back signed from FITS tables)
         fields = [rng.choice(['f8', 'f4', 'i4', 'i8', 'i2', 'u2'] if rec_unsigned else ['f8', 'f4', 'i4', 'i8', 'i2'])
                   for _ in range(nf)]
-        if rec_bool and rng.random() < 0.2:
+        if rec_bool and nf > 1 and rng.random() < 0.2:
             fields[rng.randrange(nf)] = 'b1'              # a boolean field (possibly the primary one)
         pr = rng.randrange(nf)
         if fields[pr] in FLT_DTYPES:
